@@ -295,7 +295,7 @@ package internal
 //@ gexp_loop byte
 
 // Double-scalar multiplication: [g]G by the comb (bits of gScalar) interleaved with [s]P by the signed 4-NAF digits d_i of
-// scalar (lemma: the digits are zero or odd with |d| < 16 and sum_i d_i 2^i = s; stand-in in C20). Digits are handled by
+// scalar (lemma: the digits are zero or odd with |d| < 16 and sum_i d_i 2^i = s: the postcondition of utils.DecomposeNAF, proved in C20). Digits are handled by
 // case analysis over the digit set, the skip flag as "true iff nothing has been added yet".
 //@ func sm2/internal.ScalarMixedMult_Unsafe#gexp
 //@ gexp_scalar gScalar
